@@ -6,7 +6,7 @@ from typing import Callable, Dict, Optional, Set
 
 from .flow import ANY_EXC, CANCEL
 from .model import FuncInfo, Project, call_name
-from .paths import PState, PathAnalysis, calls_in_order, is_benign_call, is_mapping_get, mapping_names, run_paths
+from .paths import PState, PathAnalysis, calls_in_order, is_benign_call, is_list_total, is_mapping_get, is_sequence_op, list_names, mapping_names, run_paths
 
 _CONTAINED: Dict[str, bool] = {}
 
@@ -23,10 +23,13 @@ def contained(P: Project, f: FuncInfo, depth: int = 0) -> bool:
 
     maps = mapping_names(f.node)
 
+    lists = list_names(f.node)
+
     def pred(node, st: PState, an: PathAnalysis):
         hv = tuple(h.name for h in an.handler_stack if h.name)
+        truthy = {n_ for n_ in lists if (st.term(n_) or n_) in st.lits or n_ in st.lits} if lists else ()
         for c in calls_in_order(node):
-            if is_benign_call(c, hv) or is_mapping_get(c, maps):
+            if is_benign_call(c, hv) or is_mapping_get(c, maps) or (lists and is_list_total(c, lists, truthy)) or is_sequence_op(c, st):
                 continue
             if depth < 3:
                 g = P.resolve_call(f, c)
@@ -49,10 +52,13 @@ def fallible_except_contained(P: Project, f: FuncInfo, extra_total: Optional[Cal
 
     maps = mapping_names(f.node)
 
+    lists = list_names(f.node)
+
     def pred(node, st: PState, an: PathAnalysis):
         hv = tuple(h.name for h in an.handler_stack if h.name)
+        truthy = {n_ for n_ in lists if (st.term(n_) or n_) in st.lits or n_ in st.lits} if lists else ()
         for c in calls_in_order(node):
-            if is_benign_call(c, hv) or is_mapping_get(c, maps):
+            if is_benign_call(c, hv) or is_mapping_get(c, maps) or (lists and is_list_total(c, lists, truthy)) or is_sequence_op(c, st):
                 continue
             if extra_total is not None and extra_total(c):
                 continue
